@@ -649,7 +649,7 @@ package jrpc2
 // C10: who may touch the channel, and from where.
 //@ census[C10] send-sites: invokes Send only-in encode (*Client).send (*Client).handleRequestLocked$1
 //@ census[C10] recv-sites: invokes Recv only-in (*Server).read (*Client).accept
-//@ census[C10] close-sites: invokes Close jrpc2/channel.Channel only-in (*Server).stopLocked (*Client).stopLocked
+//@ census[C10] close-sites: invokes Close jrpc2/channel.Channel only-in (*Server).stopLocked (*Client).stopLocked github.com/creachadair/jrpc2/server.Loop$2
 //@ census[C10] encode-callers: calls encode only-in (*Server).deliver (*Server).pushReq (*Server).pushErrorLocked
 //@ census[C10] server-reader-spawned-once: go-sites (*Server).read 1 only-in (*Server).Start
 //@ census[C10] client-reader-spawned-once: go-sites (*Client).accept 1 only-in NewClient
